@@ -103,6 +103,7 @@ func isSumPreservingReweight(forged []byte, honest [][]byte) bool {
 }
 
 type c10case struct {
+	base   []byte // for a forgery derived from another one: the forgery it was derived from (nil otherwise)
 	c      *fw.Ctx
 	root   []byte
 	model  wl.Model
@@ -145,6 +146,12 @@ func (k *c10case) try(class string, b uint64, forged []byte) {
 	sig := ""
 	if isSumPreservingReweight(forged, k.honest) {
 		sig = "reweight-sum-preserving"
+	} else if k.base != nil && isSumPreservingReweight(k.base, k.honest) {
+		// the forgery is a known-finding forgery plus further edits: it belongs to the known finding only if those edits are
+		// not what makes it pass, i.e. the forgery without them verifies to the same root with the same value
+		if h2, v2, e2 := wmpt.New(nil, nil).VerifyBlockProof(b, k.base); e2 == nil && bytes.Equal(h2, k.root) && bytes.Equal(v2, val) {
+			sig = "reweight-sum-preserving"
+		}
 	}
 	c.Violate(sig, "forged proof (class %s) for block %d verifies to the trusted root %x with value %q, the block's true owner %x holds %q; %s; forged proof: %x",
 		class, b, k.root, val, owner, trueVal, k.desc, forged)
@@ -332,6 +339,17 @@ func runC10(c *fw.Ctx) {
 							}
 							forged := append(append([]*wmpt.PersistNodeBase{}, ns2[:bi+1]...), n2[bi+1:]...)
 							k.try("T1 sum-preserving re-weighting + spliced honest tail", b, encProof(forged))
+							// T9: the same, with every weight claimed further down the spliced tail inflated as well (short nodes carry
+							// their value's weight unhashed): only the leaf's own, hashed weight is left to stop the block
+							f9 := cloneNodes(forged)
+							for _, nd9 := range f9[bi+1:] {
+								if nd9.Short != nil && len(nd9.Short.Value) >= 40 {
+									binary.BigEndian.PutUint64(nd9.Short.Value[32:40], binary.BigEndian.Uint64(nd9.Short.Value[32:40])+delta+W)
+								}
+							}
+							k.base = encProof(forged)
+							k.try("T9 re-weighting + spliced tail with inflated short-node weights", b, encProof(f9))
+							k.base = nil
 						}
 						// T2: sum-changing
 						ns3 := cloneNodes(hn)
@@ -467,7 +485,7 @@ func init() {
 		ID:           "C10",
 		EvalCounters: []string{"tamperings", "honest_proofs_verified"},
 		Level:        "exploration",
-		Rule: "half of the committed tries are asked for a proof between Commit and the write of its batch (the attempt may fail and must leave nothing behind); a third of the tries delete and put back unchanged entries in one commit window, commit and run two garbage-collection passes before the proofs are taken; for half of the committed tries a CopyRoot snapshot view is taken, the trie is updated further in memory, and every proof of the view must verify against the view's own root and content. Each case builds a weighted trie of 2..10 keys (a fifth of the values are 80..160 bytes long; after a first commit a third of the values are replaced by different values of the same weight) (in memory / committed at level 0..4 / committed and reloaded from the hash). Honest half: every block 1..W proves to the reference root with the owner's value. Adversarial half: for every block (thorough) / first, last and three random blocks (quick) the honest proof is decoded with the exported Persist* types, " +
+		Rule: "(T9: every T1 forgery with a spliced tail is repeated with all weights claimed further down the tail inflated as well - short nodes carry their value's weight unhashed - so that only the leaf's own hashed weight can stop the block; a T9 hit counts under the known finding only if the same forgery without the inflation verifies to the same root with the same value.) half of the committed tries are asked for a proof between Commit and the write of its batch (the attempt may fail and must leave nothing behind); a third of the tries delete and put back unchanged entries in one commit window, commit and run two garbage-collection passes before the proofs are taken; for half of the committed tries a CopyRoot snapshot view is taken, the trie is updated further in memory, and every proof of the view must verify against the view's own root and content. Each case builds a weighted trie of 2..10 keys (a fifth of the values are 80..160 bytes long; after a first commit a third of the values are replaced by different values of the same weight) (in memory / committed at level 0..4 / committed and reloaded from the hash). Honest half: every block 1..W proves to the reference root with the owner's value. Adversarial half: for every block (thorough) / first, last and three random blocks (quick) the honest proof is decoded with the exported Persist* types, " +
 			"tampered and re-encoded: T1 sum-preserving re-weighting of claimed child weights in each branch (all ordered sibling pairs, deltas 1, 2 and the whole weight; same tail and honest tails of other blocks), T2 sum-changing re-weighting, T3 swapped sibling entries/hashes, T4 nodes or whole proofs from other blocks, positions and another trie, " +
 			"T5 dropped/duplicated/reordered/truncated elements, T6 edited short keys, child weights, value bytes and weights, T7 type confusion (hash/nil/value node in place of an element), T8 bit flips and raw splices. A forged proof is a violation iff verification returns no error, the trusted root and a value different from the true owner's. " +
 			"distinct non-trivial = distinct (trie root, block, tampering class) combinations submitted",
@@ -478,7 +496,7 @@ func init() {
 			return 1280
 		},
 		Run: runC10,
-		Floors: map[string]int64{"tries_with_readded_entries_and_gc": 300, "snapshot_views_checked_after_live_updates": 300, "proof_attempts_before_the_batch_was_written": 300, "tries": 1000, "honest_proofs_verified": 20000, "tamperings": 1000000, "tamper:T2 sum-changing re-weighting": 10000, "tamper:T1 sum-preserving re-weighting": 10000, "tamper:T3 swapped sibling hashes": 10000,
+		Floors: map[string]int64{"tries_with_readded_entries_and_gc": 300, "snapshot_views_checked_after_live_updates": 300, "proof_attempts_before_the_batch_was_written": 300, "tries": 1000, "honest_proofs_verified": 20000, "tamperings": 1000000, "tamper:T9 re-weighting + spliced tail with inflated short-node weights": 100000, "tamper:T2 sum-changing re-weighting": 10000, "tamper:T1 sum-preserving re-weighting": 10000, "tamper:T3 swapped sibling hashes": 10000,
 			"tamper:T4 honest proof of another block": 10000, "tamper:T5 dropped element": 10000, "tamper:T6 value weight edited": 5000, "tamper:T7 element replaced by a hash node": 10000, "tamper:T8 bit flips": 50000, "rejected_with_error": 100000, "rejected_other_root": 100000, "same_weight_overwrites": 1000, "tamper:T6 long value edited beyond byte 32": 500},
 		Assumptions: []string{
 			"the adversarial half ranges over structured tamperings of honest proofs and random byte edits, not over all byte strings",
